@@ -76,6 +76,16 @@ def mk(spec: Tuple[str, Any, Any]):
         return {"jsonrpc": "2.0", "method": "notifications/bad", "params": {"c": c}}, UNSER
     if shape == "unser_bytes":
         return {"jsonrpc": "2.0", "method": "notifications/bad", "params": {"b": b"\xff"}}, UNSER
+    if shape == "unser_deep":
+        d: Any = {"leaf": 1}
+        for _ in range(6000):
+            d = {"n": d}
+        return {"jsonrpc": "2.0", "method": "notifications/deep", "params": d}, UNSER
+    if shape == "unser_badrepr":
+        class BadRepr:
+            def __repr__(self):
+                raise RuntimeError("repr exploded")
+        return BadRepr(), UNSER
     if shape == "surrogate_dict":
         d = {"jsonrpc": "2.0", "method": "notifications/s", "params": {"s": "\ud800"}}
         return dict(d), ("OPTIONAL", d)
@@ -87,7 +97,8 @@ def mk(spec: Tuple[str, Any, Any]):
 UNSER = ("UNSER",)
 GOOD_SHAPES = ["typed_request", "typed_request_noparams", "typed_notification", "typed_response", "typed_error",
                "legacy_request", "legacy_notification", "legacy_response", "dict", "dict_notification", "str_ascii", "str_utf8"]
-BAD_SHAPES = ["unser_object", "unser_set", "unser_circular", "unser_bytes", "surrogate_dict", "unser_surrogate_str"]
+BAD_SHAPES = ["unser_object", "unser_set", "unser_circular", "unser_bytes", "surrogate_dict", "unser_surrogate_str",
+              "unser_deep", "unser_badrepr"]
 IDS = [1, 0, "a", "123", 2**63, "\u00fc"]
 
 
